@@ -382,6 +382,55 @@ Theorem C04_ram_push_once :
 Proof. exact ram_push_once. Qed.
 Print Assumptions C04_ram_push_once.
 
+(** RECLAMATION SAFETY of the node hand-over (the tail CAS (16) in pop): _tail never points to a retired node *)
+Theorem C04_ram_tail_not_retired :
+  forall E R : N,
+       1 <= E ->
+       C_step_size E * E < 2 ^ 32 ->
+       forall st : state,
+       reach init (step E R) st -> g_ovf st = false -> forall n : N, In n (g_retired st) -> tail st <> n.
+Proof. exact ram_tail_not_retired. Qed.
+Print Assumptions C04_ram_tail_not_retired.
+
+(** no node reachable from _head or from _tail along next pointers is retired *)
+Theorem C04_ram_live_not_retired :
+  forall E R : N,
+       1 <= E ->
+       C_step_size E * E < 2 ^ 32 ->
+       forall st : state,
+       reach init (step E R) st ->
+       g_ovf st = false ->
+       forall n : N, nreach (nnext st) (head st) n \/ nreach (nnext st) (tail st) n -> ~ In n (g_retired st).
+Proof. exact ram_live_not_retired. Qed.
+Print Assumptions C04_ram_live_not_retired.
+
+(** a thread about to execute the head CAS (13) for node h: _tail is not on h (and stays off it) *)
+Theorem C04_ram_head_cas_tail_off :
+  forall E R : N,
+       1 <= E ->
+       C_step_size E * E < 2 ^ 32 ->
+       forall (st : state) (t : nat) (h nx : N),
+       reach init (step E R) st -> g_ovf st = false -> th st t = D7 h nx -> tail st <> h.
+Proof. exact ram_head_cas_tail_off. Qed.
+Print Assumptions C04_ram_head_cas_tail_off.
+
+(** REFUTED for the code BEFORE the repair ([step_gen 1 0 true]: pop without the tail CAS; E = 1): a stopped pusher has
+    linked a node but not swung _tail; a pop retires the old node while _tail still points to it *)
+Theorem C04_ram_tail_not_retired_old_refuted :
+  ~
+       (forall st : state,
+        reach init (step_gen 1 0 true) st -> forall n : N, In n (g_retired st) -> tail st <> n).
+Proof. exact ram_tail_not_retired_old_refuted. Qed.
+Print Assumptions C04_ram_tail_not_retired_old_refuted.
+
+(** the same schedule on the repaired code: the popper swings _tail first, then retires the old node *)
+Theorem C04_ram_tail_swung_by_pop_example :
+  let st := end_of 1 0 (tail_retired_acts ++ steps 3 1) in
+       reach init (step 1 0) st /\
+       g_ovf st = false /\ th st 2 = P7 1 4 /\ g_nodes st = [1; 4] /\ g_retired st = [1] /\ head st = 4 /\ tail st = 4.
+Proof. exact tail_swung_by_pop_example. Qed.
+Print Assumptions C04_ram_tail_swung_by_pop_example.
+
 (** REFUTED reading: the order of the successful entry CASes is not the order in which values leave (E = 2; replayed on the real code) *)
 Theorem C04_ram_cas_order_refuted :
   ~
@@ -429,7 +478,8 @@ Theorem C04_ram_solo_push :
 Proof. exact ram_solo_push. Qed.
 Print Assumptions C04_ram_solo_push.
 
-(** C16: pop finishes solo within (E+R+14)*((E+1)*(nodes from head on)+2) steps *)
+(** C16: pop finishes solo within (E+R+14)*((E+1)*(nodes from head on)+2) steps (a hand-over iteration of the pop loop is
+    8 steps with the tail CAS (16); the loop weight E+R+14 covers it) *)
 Theorem C04_ram_solo_pop :
   forall E R : N,
        1 <= E ->
